@@ -103,6 +103,8 @@ Fixpoint trim_left_rev_fuel (fuel : nat) (l : bytes) : bytes :=
            | n => trim_left_rev_fuel f (skipn n l)
            end
   end.
-Definition trim_right (l : bytes) : bytes := rev (trim_left_rev_fuel (length l) (rev l)).
+(** [frev] is [rev] computed in linear time ([rev_append_rev] relates them). *)
+Definition frev (l : bytes) : bytes := rev_append l [].
+Definition trim_right (l : bytes) : bytes := frev (trim_left_rev_fuel (length l) (frev l)).
 
 Definition trim_space (l : bytes) : bytes := trim_right (trim_left l).
